@@ -35,10 +35,12 @@ import mpyc.random as mr  # noqa: E402
 LEVEL = 'proof'
 LEAN_MODULES = ['MpycV.Props.C33']
 LEAN_NAMESPACES = ['MpycV.C33']
-REQUIRED_THEOREMS = ['getrandbits_lt', 'randbelow_lt', 'randrange_mem', 'randint_mem', 'unit_vector_shape',
-                     'shuffle_perm', 'derangement_no_fixed_point', 'sample_distinct_positions',
-                     'sample_range_distinct', 'choice_mem', 'choices_mem', 'random_lt_one', 'uniform_between',
-                     'randbelow_uniform_le16', 'unit_vector_uniform_le16', 'random_bit_sqrt', 'random_bit_prod']
+REQUIRED_THEOREMS = ['getrandbits_lt', 'randbelow_lt', 'randrange_mem', 'randrange_mem_neg', 'randint_mem',
+                     'unit_vector_shape', 'shuffle_perm', 'random_permutation_perm', 'derangement_no_fixed_point',
+                     'sample_distinct_positions', 'sample_range_distinct', 'choice_mem', 'choices_mem',
+                     'weighted_pick_mem', 'random_lt_one', 'uniform_between', 'randbelow_uniform_le16',
+                     'randbelow_enum_sound', 'unit_vector_uniform_le16', 'ruvPos_spec', 'random_bit_sqrt',
+                     'random_bit_sqrt_flip', 'random_bit_prod']
 RULE = ('A: every node of the rejection tree of _randbelow(n) / random_unit_vector(n) up to L stream bits, n = 1..16; '
         'a case is distinct by (function, n, m, bit stream); non-trivial = at least one restart or n not a power of 2. '
         'B: seeded bit streams, arguments stratified over ranges with positive/negative steps, population sizes 1..9, '
